@@ -58,7 +58,7 @@ var fLeanType = map[string]string{
 	"feat": "Gts.Feature", "feats": "List Gts.Feature", "ints": "List Int", "loc": "Gts.Loc", "locs": "List Gts.Loc",
 	"props": "List (List String)", "filter": "Gts.Feature → Bool", "filters": "List (Gts.Feature → Bool)",
 	"loclist": "List Gts.Loc", "map": "List (String × List Int)", "qres": "ρ_", "unit": "Unit",
-	"entry": "String × List Int",
+	"entry": "String × List Int", "phi": "φ_", "err": "Option ε_",
 }
 
 var fElem = map[string]string{"feats": "feat", "ints": "int", "locs": "loc", "bytes": "byte", "filters": "filter", "map": "entry"}
@@ -76,6 +76,10 @@ var fSpecials = []fspecial{
 	{"sortInts_", "(sortInts_ : List Int → List Int)", "`sort.Sort(sort.IntSlice(·))`"},
 	{"sprintf_", "(sprintf_ : String → String → List (List String) → String)", "`fmt.Sprintf(format, string, Props)`"},
 	{"rangeMap_", "(rangeMap_ : List (String × List Int) → List (String × List Int))", "the order in which `range` visits a map"},
+	{"φ_", "{φ_ ε_ : Type}", "the types of a `Filter` and of an `error` (abstract)"},
+	{"key_", "(key_ : List UInt8 → φ_)", "`Key(key)`"},
+	{"falseFilter_", "(falseFilter_ : φ_)", "`FalseFilter`"},
+	{"and_", "(and_ : φ_ → φ_ → φ_)", "`And(a, b)`"},
 	{"qualifier_", "{ρ_ : Type} (qualifier_ : List UInt8 → List UInt8 → ρ_)", "`Qualifier(name, query)`"},
 }
 
@@ -100,6 +104,8 @@ type ffn struct {
 	known   map[string]fcallee
 	consts  map[string]fval
 	predTyp string // Lean type of a `func(int) bool` parameter
+	// `Filter` and `error` as abstract types (Selector): "phi" / "" ; the binder of qualifier_ there
+	filterTyp string
 }
 
 type fhelper struct{ name, text string }
@@ -272,7 +278,15 @@ func (f *ffn) typOf(x ast.Expr) string {
 	case "Props":
 		return "props"
 	case "Filter":
+		if f.filterTyp != "" {
+			return f.filterTyp
+		}
 		return "filter"
+	case "error":
+		if f.filterTyp != "" {
+			return "err"
+		}
+		refuse("type error")
 	case "...Filter", "[]Filter":
 		return "filters"
 	case "LocationList":
@@ -327,6 +341,9 @@ func (c *fctx) conv(v fval, t string) string {
 		return v.expr
 	}
 	if v.typ == "nil" {
+		if t == "err" {
+			return "none"
+		}
 		refuse("nil where a %s is expected", t)
 	}
 	if v.typ != t {
@@ -400,6 +417,9 @@ func (c *fctx) expr(x ast.Expr, pre *[]fbind) fval {
 		}
 		if v, ok := c.f.consts[n.Name]; ok {
 			return v
+		}
+		if n.Name == "FalseFilter" && c.f.filterTyp == "phi" {
+			return fval{typ: "phi", expr: c.use("falseFilter_")}
 		}
 		if k, ok := c.f.known[n.Name]; ok && k.result == "bool" && len(k.params) == 1 && k.params[0] == "feat" && !k.effect {
 			// a top-level predicate on features used as a Filter value
@@ -532,6 +552,9 @@ func (c *fctx) binary(n *ast.BinaryExpr, pre *[]fbind) fval {
 			r = fval{typ: l.typ, expr: c.conv(r, l.typ)}
 		}
 		switch {
+		case eq && l.typ == "err" && r.typ == "nil":
+			// `err != nil` / `err == nil`
+			return fval{typ: "prop", expr: fmt.Sprintf("(%s.isSome = %v)", fatom(l.expr), n.Op == token.NEQ)}
 		case l.typ == "int" && r.typ == "int", l.typ == "byte" && r.typ == "byte":
 			return fval{typ: "prop", expr: fmt.Sprintf("(%s %s %s)", l.expr, op, r.expr)}
 		case eq && (l.typ == "str" && r.typ == "str" || l.typ == "bytes" && r.typ == "bytes"):
@@ -681,6 +704,17 @@ func (c *fctx) call(n *ast.CallExpr, pre *[]fbind) fval {
 		want(2)
 		a, b := c.conv(c.expr(n.Args[0], pre), "bytes"), c.conv(c.expr(n.Args[1], pre), "bytes")
 		return fval{typ: "qres", expr: fmt.Sprintf("(%s %s %s)", c.use("qualifier_"), fatom(a), fatom(b))}
+	case "Key", "And":
+		if c.f.filterTyp != "phi" {
+			break
+		}
+		if fun == "Key" {
+			want(1)
+			return fval{typ: "phi", expr: fmt.Sprintf("(%s %s)", c.use("key_"), fatom(c.conv(c.expr(n.Args[0], pre), "bytes")))}
+		}
+		want(2)
+		a, b := c.conv(c.expr(n.Args[0], pre), "phi"), c.conv(c.expr(n.Args[1], pre), "phi")
+		return fval{typ: "phi", expr: fmt.Sprintf("(%s %s %s)", c.use("and_"), fatom(a), fatom(b))}
 	case "sort.Search":
 		want(2)
 		lit, ok := n.Args[1].(*ast.FuncLit)
@@ -993,12 +1027,32 @@ func (c *fctx) assignStmt(n *ast.AssignStmt, rest []ast.Stmt, k func(c *fctx) st
 	default:
 		refuse("assignment operator %s", n.Tok)
 	}
-	if len(n.Lhs) != len(n.Rhs) {
-		refuse("assignment arity (%d := %d)", len(n.Lhs), len(n.Rhs))
-	}
-	vals := make([]fval, len(n.Rhs))
-	for i, r := range n.Rhs {
-		vals[i] = c.expr(r, &pre)
+	var vals []fval
+	if len(n.Lhs) > 1 && len(n.Rhs) == 1 {
+		// a call with several results
+		v := c.expr(n.Rhs[0], &pre)
+		if !strings.HasPrefix(v.typ, "tuple:") {
+			refuse("assignment arity (%d := 1)", len(n.Lhs))
+		}
+		ts := strings.Split(strings.TrimPrefix(v.typ, "tuple:"), ",")
+		if len(ts) != len(n.Lhs) {
+			refuse("assignment arity (%d := a call with %d results)", len(n.Lhs), len(ts))
+		}
+		for i, t := range ts {
+			vals = append(vals, fval{typ: t, expr: v.expr + projOf(i, len(ts))})
+		}
+		n = &ast.AssignStmt{Lhs: n.Lhs, Tok: n.Tok, Rhs: make([]ast.Expr, len(n.Lhs))}
+		for i := range n.Rhs {
+			n.Rhs[i] = ast.NewIdent("_")
+		}
+	} else {
+		if len(n.Lhs) != len(n.Rhs) {
+			refuse("assignment arity (%d := %d)", len(n.Lhs), len(n.Rhs))
+		}
+		vals = make([]fval, len(n.Rhs))
+		for i, r := range n.Rhs {
+			vals[i] = c.expr(r, &pre)
+		}
 	}
 	if len(n.Lhs) > 1 {
 		for i := range vals {
